@@ -55,6 +55,26 @@ func TestVerifC01Mem(t *testing.T) {
 			rec.Note("prepare failed: %v", err)
 			return
 		}
+		stale := 0
+		if v := rapid.IntRange(0, 9).Draw(rt, "stale_output"); v == 3 || v == 6 {
+			// the output directory already holds other versions of some files (an older copy
+			// of the tree, without resume metadata): longer, shorter, or non-empty where the
+			// source is empty - success must still mean "same length, same bytes"
+			for i, it := range p.fileItems() {
+				if !rapid.Bool().Draw(rt, fmt.Sprintf("stale%d", i)) {
+					continue
+				}
+				n := rapid.IntRange(0, 2*int(it.Size)+5).Draw(rt, fmt.Sprintf("stale_len%d", i))
+				base := p.baseDirOf()
+				if x.Legacy { // the single-stream receiver always writes below the manifest root
+					base = filepath.Join(p.out, p.m.Root)
+				}
+				fp := filepath.Join(base, filepath.FromSlash(it.RelPath))
+				if os.MkdirAll(filepath.Dir(fp), 0755) == nil && os.WriteFile(fp, verifkit.Content(uint64(i)+77, n), 0644) == nil {
+					stale++
+				}
+			}
+		}
 		pair, err := p.newPair(nil)
 		if err != nil {
 			rt.Fatalf("pair: %v", err)
@@ -64,6 +84,9 @@ func TestVerifC01Mem(t *testing.T) {
 		res := p.run(pair, 20*time.Second, 1500*time.Millisecond)
 		remove()
 		rec.Eval()
+		if stale > 0 {
+			rec.Class("stale-files-at-destination")
+		}
 		if x.Legacy {
 			rec.Class("legacy-protocol")
 		}
